@@ -64,8 +64,11 @@ def _self_attrs(fn: ast.AST) -> list[tuple[str, str]]:
 def inventory(trees: dict[str, ast.Module]) -> dict[str, Any]:
     inv: dict[str, Any] = {}
     for mod, tree in trees.items():
-        m: dict[str, Any] = {"functions": {}, "classes": {}}
+        m: dict[str, Any] = {"functions": {}, "classes": {}, "globals": []}
         for st in tree.body:
+            if isinstance(st, (ast.Assign, ast.AnnAssign)):
+                tg = st.targets if isinstance(st, ast.Assign) else [st.target]
+                m["globals"] += [t.id for t in tg if isinstance(t, ast.Name)]
             if isinstance(st, FuncDef):
                 m["functions"][st.name] = {"shape": shape(st), "nparams": len(st.args.args)}
             elif isinstance(st, ast.ClassDef):
@@ -102,6 +105,8 @@ def _match(missing: dict[str, Any], new: dict[str, Any], score, threshold: float
         for n, nv in new.items():
             s = score(ov, nv)
             if s >= threshold:
+                # equal shapes (twin helpers such as _set_start_/_set_finish_connect_future) are told apart by name
+                s += 0.1 * difflib.SequenceMatcher(None, o, n).ratio()
                 pairs.append((s, o, n))
     pairs.sort(reverse=True)
     used_o: set[str] = set()
@@ -611,6 +616,86 @@ def hoist_walrus(tree: ast.Module, log: list[str]) -> None:
     ast.fix_missing_locations(tree)
 
 
+# ------------------------------------------------------------------ N5 extend(literal) -> appends
+def expand_extend(tree: ast.Module) -> int:
+    """`xs.extend((a, b, c))` with a literal tuple/list argument  ->  `xs.append(a); xs.append(b); xs.append(c)`."""
+    count = 0
+
+    def process(body: list[ast.stmt]) -> list[ast.stmt]:
+        nonlocal count
+        out: list[ast.stmt] = []
+        for st in body:
+            for fld in ("body", "orelse", "finalbody"):
+                b = getattr(st, fld, None)
+                if isinstance(b, list) and b and isinstance(b[0], ast.stmt):
+                    setattr(st, fld, process(b))
+            for h in getattr(st, "handlers", []) or []:
+                h.body = process(h.body)
+            if (
+                isinstance(st, ast.Expr) and isinstance(st.value, ast.Call) and isinstance(st.value.func, ast.Attribute) and st.value.func.attr == "extend"
+                and isinstance(st.value.func.value, ast.Name) and len(st.value.args) == 1 and isinstance(st.value.args[0], (ast.Tuple, ast.List))
+                and not any(isinstance(e, ast.Starred) for e in st.value.args[0].elts) and not st.value.keywords
+            ):
+                for e in st.value.args[0].elts:
+                    ap = ast.Expr(value=ast.Call(func=ast.Attribute(value=ast.Name(id=st.value.func.value.id, ctx=ast.Load()), attr="append", ctx=ast.Load()), args=[e], keywords=[]))
+                    out.append(ast.copy_location(ap, st))
+                count += 1
+                continue
+            out.append(st)
+        return out
+
+    for n in ast.walk(tree):
+        if isinstance(n, FuncDef):
+            n.body = process(n.body)
+    return count
+
+
+# ------------------------------------------------------------------ N7 new module-level literal constants
+def inline_new_constants(trees: dict[str, ast.Module], base: dict[str, Any]) -> list[str]:
+    """A module-level name the baseline does not know, bound once to a literal, is replaced by the literal
+    (a maintainer hoisting a magic value into a named constant)."""
+    done: list[str] = []
+    for mod, tree in trees.items():
+        bm = base.get(mod)
+        if bm is None:
+            continue
+        known = set(bm.get("globals", []))
+        binds: dict[str, list[ast.expr]] = {}
+        for st in tree.body:
+            if isinstance(st, (ast.Assign, ast.AnnAssign)) and getattr(st, "value", None) is not None:
+                tg = st.targets if isinstance(st, ast.Assign) else [st.target]
+                for t in tg:
+                    if isinstance(t, ast.Name):
+                        binds.setdefault(t.id, []).append(st.value)  # type: ignore[arg-type]
+        new = {k: v[0] for k, v in binds.items() if k not in known and len(v) == 1 and isinstance(v[0], ast.Constant) and isinstance(v[0].value, (int, float, str, bytes)) and not isinstance(v[0].value, bool)}
+        # not if the name is rebound anywhere (global statement) or imported elsewhere
+        if not new:
+            continue
+        for n in ast.walk(tree):
+            if isinstance(n, ast.Global):
+                for x in n.names:
+                    new.pop(x, None)
+        for other_mod, other in trees.items():
+            for n in ast.walk(other):
+                if isinstance(n, ast.ImportFrom):
+                    for a in n.names:
+                        new.pop(a.name, None) if other_mod != mod else None
+
+        class T(ast.NodeTransformer):
+            def visit_Name(self, node: ast.Name):  # noqa: N802
+                if isinstance(node.ctx, ast.Load) and node.id in new:
+                    return ast.copy_location(copy.deepcopy(new[node.id]), node)
+                return node
+
+        # locals / parameters shadowing the name: leave such functions alone
+        for fn in [x for x in ast.walk(tree) if isinstance(x, FuncDef)]:
+            if _stores(fn) & set(new):
+                continue
+            T().visit(fn)
+        done += [f"{mod}:{k}" for k in new]
+    return done
+
+
 # ------------------------------------------------------------------ driver (N1-N3; N4 runs after indexing, see aliases.py)
 def normalize_trees(trees: dict[str, ast.Module]) -> dict[str, Any]:
     report: dict[str, Any] = {"renamed": {}, "inlined": [], "walrus": 0}
@@ -628,10 +713,12 @@ def normalize_trees(trees: dict[str, ast.Module]) -> dict[str, Any]:
         log: list[str] = []
         inline_new_helpers(trees, base, log)
         report["inlined"] = log
+        report["constants"] = inline_new_constants(trees, base)
     wl: list[str] = []
     for t in trees.values():
         hoist_walrus(t, wl)
     report["walrus"] = len(wl)
+    report["extend"] = sum(expand_extend(t) for t in trees.values())
     for t in trees.values():
         ast.fix_missing_locations(t)
     return report
